@@ -16,18 +16,21 @@ import vlib
 PROP = "C20"
 BREAL = 25000                     # kp's internal batch size
 NOOPT = -1
-OK_OPS = ["addone", "helmert x=1 y=2 z=3", "geo:in | utm zone=32", "noop"]      # shape.opx (1-based)
+OK_OPS = ["addone", "helmert x=1 y=2 z=3", "geo:in | utm zone=32", "noop",      # shape.opx (1-based)
+          # operations with a domain limit (family F): the library returns NaN for, and does not count, a tuple
+          # too far from the central meridian (both directions) / outside the projection disc (inverse)
+          "geo:in | tmerc lon_0=9", "laea lat_0=52 lon_0=10"]
 BAD_OPS = ["no_such_operator", "utm", "addone | helmert x=foo"]
 # Units of the last printed place a token may be away from the library's in-process value.  kp and the
 # harness are two builds of the library (different optimisation levels): operations made of additions of
 # exactly representable numbers must agree to the digit (0.5: correctly rounded, ties either way); for
 # the projection a difference in the last bits of the two builds must not raise an alarm.
-SLACK = [0.5, 0.5, 2.5, 0.5]
+SLACK = [0.5, 0.5, 2.5, 0.5, 2.5, 2.5]
 ZVAL, TVAL = "7.5", "2020.25"      # the -z / -t values
 DECO = {"blank": "", "ws": "  \t ", "comment": "# a comment 1 2 3", "icomment": "   # indented 4 5 6"}
 TAIL = " # trailing 7 8 9"
 ACTIONS = ["Instantiate", "BadOperation", "OpenFile", "OpenFails", "SkipLine", "ReadCoord", "EndOfFile",
-           "EndOfInput", "Transform", "Format"]
+           "EndOfInput", "Transform", "RefuseRoundtrip", "Format"]
 KP_TIMEOUT = 300
 WORKERS = 4
 
@@ -49,6 +52,11 @@ class Gen:
         self.txt = {"dec": [[None], [None], [None], [None]], "sexa": [[None], [None], [None], [None]]}
         self.val = {"dec": [[None], [None], [None], [None]], "sexa": [[None], [None], [None], [None]]}
         self.joined = {}
+        # lines outside the domain of the family F operations, by the direction applied first:
+        # "fwd": latitude just off the equator, 90 degrees from the central meridian (tmerc easting unbounded);
+        # "inv": an easting of 30000 km (beyond tmerc's limit and outside laea's disc)
+        self.ftxt = {"fwd": [[None], [None], [None], [None]], "inv": [[None], [None], [None], [None]]}
+        self.fval = {"fwd": [[None], [None], [None], [None]], "inv": [[None], [None], [None], [None]]}
 
     def ensure(self, nmax):
         if nmax <= self.n:
@@ -66,8 +74,17 @@ class Gen:
             for e in range(4):
                 self.txt["sexa"][e].append(st[e])
                 self.val["sexa"][e].append(sv[e])
+            ff = {"fwd": [repr((1 + n % 64) / 1024), "99", c[2], c[3]],
+                  "inv": [repr(30000000 + n % 1000), repr(1000 + (n % 500) / 4), c[2], c[3]]}
+            for k, toks in ff.items():
+                for e in range(4):
+                    self.ftxt[k][e].append(toks[e])
+                    self.fval[k][e].append(repr(float(toks[e])))
         self.n = nmax
         self.joined = {}
+
+    def fail_text(self, first, c, n):
+        return " ".join(self.ftxt[first][e][n] for e in range(c))
 
     def text(self, form, c):
         """list indexed by n of the line text with c columns"""
@@ -94,7 +111,23 @@ def mult(it):
     return BREAL - 2 if it["rep"] == "fill" else 1
 
 
-def item_text(gen, it, n0, m):
+def fail_offsets(it, m):
+    """0-based offsets of the lines of a coordinate item (m lines) that lie outside the operation's domain
+    (Kp.tla: FailAt)"""
+    f = it.get("fail", "none")
+    return {"none": [], "all": range(m), "first": [0], "last": [m - 1], "mid": [(m + 1) // 2 - 1],
+            "some": range(0, m, 4)}[f]
+
+
+def cols_at(it, j0):
+    return it["cols"] if it["cols"] != 0 else (j0 % 4) + 1
+
+
+def first_dir(shape):
+    return "fwd" if shape["mode"] in ("fwd", "rt_fwd_inv") else "inv"
+
+
+def item_text(gen, it, n0, m, first="fwd"):
     """the m lines of coordinate item `it`, the first being coordinate line n0"""
     if it["cols"] != 0:
         lines = gen.text(it["form"], it["cols"])[n0:n0 + m]
@@ -102,6 +135,11 @@ def item_text(gen, it, n0, m):
         lines = [None] * m
         for k in range(4):              # copy j (1-based) has ((j-1) % 4) + 1 columns
             lines[k::4] = gen.text(it["form"], k + 1)[n0 + k:n0 + m:4]
+    fo = fail_offsets(it, m)
+    if len(fo):
+        lines = list(lines)
+        for j in fo:
+            lines[j] = gen.fail_text(first, cols_at(it, j), n0 + j)
     if it["tail"]:
         lines = [s + TAIL for s in lines]
     return lines
@@ -128,12 +166,18 @@ def _tuple_lines(gen, form, c, rule, ns):
     return ["%s %s %s %s %s" % (a, b, x, y, mask) for a, b, x, y in zip(*cols)]
 
 
-def item_tuples(gen, it, n0, m, rules):
+def item_tuples(gen, it, n0, m, rules, first="fwd"):
     if it["cols"] != 0:
-        return _tuple_lines(gen, it["form"], it["cols"], rules[it["cols"] - 1], range(n0, n0 + m))
-    lines = [None] * m
-    for k in range(4):
-        lines[k::4] = _tuple_lines(gen, it["form"], k + 1, rules[k], range(n0 + k, n0 + m, 4))
+        lines = _tuple_lines(gen, it["form"], it["cols"], rules[it["cols"] - 1], range(n0, n0 + m))
+    else:
+        lines = [None] * m
+        for k in range(4):
+            lines[k::4] = _tuple_lines(gen, it["form"], k + 1, rules[k], range(n0 + k, n0 + m, 4))
+    for j in fail_offsets(it, m):
+        # same rules, the columns being those of the out-of-domain line
+        old = lines[j].split()
+        rule = rules[cols_at(it, j) - 1]
+        lines[j] = " ".join([gen.fval[first][e][n0 + j] if rule[e] == "col" else old[e] for e in range(4)] + [old[4]])
     return lines
 
 
@@ -186,6 +230,7 @@ def _run_shape(shape, key, d, gen, kp, gvh, corrupt):
     where = {}
     fileargs, stdin_path = [], None
     ncoord_items = 0
+    nfail = 0
     for f, fl in enumerate(shape["files"], 1):
         if fl["src"] == "missing":
             fileargs.append(os.path.join(d, "does-not-exist-%d.txt" % f))
@@ -196,7 +241,8 @@ def _run_shape(shape, key, d, gen, kp, gvh, corrupt):
                 m = mult(it)
                 gen.ensure(n + m)
                 where[(f, i)] = (n + 1, m, it)
-                chunks += item_text(gen, it, n + 1, m)
+                chunks += item_text(gen, it, n + 1, m, first_dir(shape))
+                nfail += len(fail_offsets(it, m))
                 n += m
                 ncoord_items += 1
             else:
@@ -216,7 +262,7 @@ def _run_shape(shape, key, d, gen, kp, gvh, corrupt):
     tl = []
     for f, i in shape["out"]:
         n0, m, it = where[(f, i)]
-        tl += item_tuples(gen, it, n0, m, shape["rules"])
+        tl += item_tuples(gen, it, n0, m, shape["rules"], first_dir(shape))
     n_expected = shape["ones"] + shape["fills"] * (BREAL - 2)
     if shape["status"] == "ok" and (len(tl) != n_expected or n_expected != n):
         raise vlib.ToolError("instantiation disagrees with the specification's line count: %d %d %d" % (len(tl), n_expected, n))
@@ -247,11 +293,15 @@ def _run_shape(shape, key, d, gen, kp, gvh, corrupt):
     stderr_head = re.sub(r"\(\d+\) ", "", open(err_path, "rb").read(600).decode("utf-8", "replace")).replace(d + os.sep, "")
     stderr_nonempty = os.path.getsize(err_path) > 0
     # ---- the library
+    # Where the specification leaves the end of a --roundtrip run with failing tuples open, an error end
+    # (message, non-zero status) is admitted: what was written before must be the first lines of the prediction.
+    refused = bool(shape.get("refusal_open")) and rc not in (0, None) and stderr_nonempty and rc != 101
     o = shape["opts"]
     job = {"id": key, "def": op_def(shape), "mode": shape["mode"],
            "d": None if o["d"] == NOOPT else o["d"], "D": None if o["D"] == NOOPT else o["D"],
            "tuples": tuples_path if shape["status"] == "ok" else None,
-           "observed": out_path, "expected_out": os.path.join(d, "expected.txt"), "compare": shape["compare"],
+           "observed": out_path, "expected_out": os.path.join(d, "expected.txt"),
+           "compare": "prefix" if (refused and shape["compare"] == "numbers") else shape["compare"],
            "slack": SLACK[shape["opx"] - 1] if shape["op"] == "ok" else 0.5}
     jp, rp = os.path.join(d, "job.ndjson"), os.path.join(d, "result.ndjson")
     with open(jp, "w") as fh:
@@ -265,6 +315,10 @@ def _run_shape(shape, key, d, gen, kp, gvh, corrupt):
             raise vlib.ToolError("gvh_kp could not compute the library's result for %s: %s" % (cmd, lib[k]))
     if lib["op_ok"] != (shape["op"] == "ok"):
         raise vlib.ToolError("the binding's operation table is stale: %r accepted=%s" % (op_def(shape), lib["op_ok"]))
+    # the family must not be vacuous: the library really fails on exactly the lines the specification marks
+    if shape["fam"] == "F" and "successes" in lib and lib["successes"] != n - nfail:
+        raise vlib.ToolError("the library counts %d successes, the specification marks %d of %d lines as failing (%s)"
+                             % (lib["successes"], nfail, n, op_def(shape)))
     # ---- verdict against the reference prediction
     fails = []
     expected = {"status": shape["refstatus"], "lines": n_expected if shape["refstatus"] == "ok" else None,
@@ -284,12 +338,12 @@ def _run_shape(shape, key, d, gen, kp, gvh, corrupt):
         if lib.get("n_mismatch", 0):
             fails.append({"what": "line-content", "msg": "%d output lines differ from the library's result" % lib["n_mismatch"],
                           "first": lib["mismatches"]})
-        if rc != 0:
+        if rc == 101 or (rc != 0 and shape.get("exit_compared", True)):
             fails.append({"what": "abnormal-end", "msg": "valid input ended with status %s%s" % (
                 rc, " (panic)" if rc == 101 else "")})
     cmd = [a.replace(d + os.sep, "") for a in cmd]      # reported without the scratch directory
     return {"key": key, "fails": fails, "cmd": cmd, "observed": observed, "expected": expected,
-            "evaluations": 1 + lib.get("evaluations", 0), "lines": n,
+            "evaluations": 1 + lib.get("evaluations", 0), "lines": n, "refused": refused, "nfail": nfail,
             "stdout_ok": shape["refstatus"] == "ok" and lib.get("count_ok") and not lib.get("n_mismatch", 0)}
 
 
@@ -305,7 +359,7 @@ def _work(args):
 # the check
 # --------------------------------------------------------------------------
 
-PRED = ("status", "refstatus", "mode", "ones", "fills", "out", "rules", "compare")
+PRED = ("status", "refstatus", "mode", "ones", "fills", "out", "rules", "compare", "exit_compared", "refusal_open")
 
 
 def model(res, tier):
@@ -320,13 +374,30 @@ def model(res, tier):
         recs = r["records"].get("SHAPE", [])
         if not recs:
             raise vlib.ToolError("no shapes exported by " + cfg)
-        per_cfg.append({shape_key(x): x for x in recs})
+        main = {}
+        for x in recs:
+            k = shape_key(x)
+            if x["refused"]:
+                continue
+            if k in main:
+                raise vlib.ToolError("two complete behaviours for one shape in " + cfg)
+            main[k] = x
+        for x in recs:
+            if x["refused"]:
+                main[shape_key(x)]["refusal_open"] = True
+        for x in main.values():
+            # the binding's reading of the `fail` patterns, checked against the specification at TLC's B
+            mine = sum(len(fail_offsets(it, x["B"] - 2 if it["rep"] == "fill" else 1))
+                       for f in x["files"] for it in f["items"] if it["t"] == "c")
+            if mine != x["nfail"]:
+                raise vlib.ToolError("binding and specification disagree on the failing lines of %s" % json.dumps(x)[:300])
+        per_cfg.append(main)
         sexa = r["records"]["SEXA"][0]["tab"]
     a, b = per_cfg
     if set(a) != set(b):
         raise vlib.ToolError("the two TLC runs explored different shapes")
     for k in a:
-        if any(a[k][f] != b[k][f] for f in PRED):
+        if any(a[k].get(f) != b[k].get(f) for f in PRED):
             raise vlib.ToolError("the specification's prediction depends on B for shape %s" % json.dumps(a[k])[:400])
     return [a[k] for k in sorted(a)], sexa
 
@@ -334,7 +405,7 @@ def model(res, tier):
 def deviated(tier):
     """status per shape with the named deviation switched on (only needed when a finding is registered)"""
     r = vlib.tlc_must_pass(vlib.tlc("MC_C20", "MC_C20_q_dev" if tier == "quick" else "MC_C20_t_dev", workers=4, timeout=1500))
-    return {shape_key(x): x["status"] for x in r["records"].get("SHAPE", [])}
+    return {shape_key(x): x["status"] for x in r["records"].get("SHAPE", []) if not x["refused"]}
 
 
 def nontrivial(shape):
@@ -398,6 +469,9 @@ def run(tier, seed):
     kf = {k.get("deviation"): k for k in vlib.known_findings(PROP)}
     dev = deviated(tier) if "DEV_EmptyFinalBatch" in kf else {}
     fam, sizes, lines = {}, {}, 0
+    res.extra["failing_coordinate_lines"] = sum(r["nfail"] for r in results)
+    res.extra["shapes_with_failing_lines"] = sum(1 for r in results if r["nfail"])
+    res.extra["roundtrip_runs_refused_by_kp"] = sum(1 for r in results if r["refused"])
     for s, r in zip(shapes, results):
         fam[s["fam"]] = fam.get(s["fam"], 0) + 1
         sizes[size_class(s)] = sizes.get(size_class(s), 0) + 1
@@ -427,7 +501,10 @@ def run(tier, seed):
                 "A (blank/white-space/comment lines in every gap relative to the batch boundaries), B (the same lines split over 2-3 "
                 "files and stdin at every position, with and without final newline), C (option sets over --inv, --roundtrip, -z, -t, "
                 "-d, -D on eight lines of 1-4 columns in decimal and sexagesimal notation; and on multi-batch inputs), D (mixtures of "
-                "column counts, notations, trailing comments), E (refused operations, missing files at every argument position), for the "
+                "column counts, notations, trailing comments), E (refused operations, missing files at every argument position), F (valid "
+                "operation with a domain limit, coordinate lines outside it - the library returns NaN and counts fewer successes than "
+                "tuples - at the first / middle / last position of a batch and in the final partial batch, one item, two items, every "
+                "line, forward, --inv and --roundtrip: still one output line per coordinate line, each the library's result), for the "
                 "coordinate counts k*B + r, k in 0..2, r in {0, 1, B-1}, with B = 3 and B = 4 (quick) / 5 (thorough); the emitted "
                 "prediction must be the same for both B. Every shape is instantiated with B = 25000 and run through the real kp; "
                 "stdout is compared line by line (token by token, -d decimals, -D tokens) with the library's in-process result for "
@@ -444,6 +521,10 @@ def run(tier, seed):
         "when the run must end with an error, stdout is not compared (the statement only demands a message and a non-zero status)",
         "columns are separated by single blanks; sexagesimal notations are D:M:S / D:M with N E S W or a leading minus, values exact in binary64",
         "more than 4 columns, -D 0 or -D > 4, -o, -e are outside the statement and not judged (the >4-column observations are recorded in the evidence)",
+        "when the operation is valid but the library fails on some tuples, the documentation does not say how the run ends: the exit status is not "
+        "compared there (a panic still is an alarm); under --roundtrip an error end (message, non-zero status) is admitted as well, and what was "
+        "written before it must be the first lines of the prediction (extra: roundtrip_runs_refused_by_kp)",
+        "family F checks against vacuity that the library's success count equals lines minus the lines the specification marks as failing",
     ]
     return res.finish()
 
